@@ -204,3 +204,22 @@ Definition show_step (t : tstep) : string :=
   end.
 Definition show_trace (tr : list tstep) (s : dstate) : string :=
   join " " (map show_step tr) ++ " | " ++ show_table (tbl s).
+
+(* ---------------------------------------------------------------- *)
+(* Constants of the Go source the model hard-codes, by the source's identifier: compared on every run with
+   the values the harness reads from the source with go/ast (case kind "src NAME"). *)
+Definition src_table : list (string * N) :=
+  [("DHCP4OptionSubnetMask", 1); ("DHCP4OptionRouter", 3); ("DHCP4OptionDomainNameServer", 6);
+   ("DHCP4OptionHostName", 12); ("DHCP4OptionPerformRouterDiscovery", 31); ("DHCP4OptionStaticRoute", 33);
+   ("DHCP4OptionRequestedIPAddress", 50); ("DHCP4OptionIPAddressLeaseTime", 51); ("DHCP4OptionDHCPMessageType", 53);
+   ("DHCP4OptionServerIdentifier", 54); ("DHCP4OptionParameterRequestList", 55); ("DHCP4OptionClientIdentifier", 61);
+   ("DHCP4OptionClasslessRouteFormat", 121); ("DHCP4End", 255); ("DHCP4Pad", 0);
+   ("DHCP4Discover", 1); ("DHCP4Offer", 2); ("DHCP4Request", 3); ("DHCP4Decline", 4); ("DHCP4ACK", 5);
+   ("DHCP4NAK", 6); ("DHCP4Release", 7); ("DHCP4BootRequest", 1); ("DHCP4BootReply", 2);
+   ("DHCP4ServerPort", 67); ("DHCP4ClientPort", 68);
+   ("StateFree", 0); ("StateDiscover", 1); ("StateAllocated", 2);
+   ("ModePrimaryServer", 1); ("ModeSecondaryServer", 2); ("ModeSecondaryServerNice", 3);
+   ("lease_duration_seconds", 14400); ("DNSv4CloudFlareFamily1", 16843011)].
+Definition src_const (name : string) : option N :=
+  option_map snd (find (fun p => String.eqb (fst p) name) src_table).
+Definition src_get (name : string) : N := match src_const name with Some v => v | None => 0 end.
